@@ -23,6 +23,7 @@ const (
 	kRecList
 	kSet
 	kAbs // a named Go type (an interface such as a hash or MAC object) represented by an abstract Lean type (-abs)
+	kMapList // map[string][]T (T a list element type): a function from byte strings to lists (missing key: the empty list)
 	kOpt // *string, *uint32, *bool, …: a pointer to a basic value that is only tested for nil, dereferenced, or made by &x: Option
 )
 
@@ -60,7 +61,26 @@ func classifyBasicAny(ty types.Type) (kind, int) {
 }
 
 // listElem: element type of a slice that is translated as a Lean List (records, abstract objects, strings, byte slices)
+// seqElem: iter.Seq[T] (a range-over-func iterator) for an abstract / record T is the list of the values it yields
+func seqElem(ty types.Type) (types.Type, bool) {
+	n, ok := ty.(*types.Named)
+	if !ok || n.Obj().Pkg() == nil || n.Obj().Pkg().Path() != "iter" || n.Obj().Name() != "Seq" || n.TypeArgs() == nil || n.TypeArgs().Len() != 1 {
+		return nil, false
+	}
+	el := n.TypeArgs().At(0)
+	if _, ok := absTypeOf(el); ok {
+		return el, true
+	}
+	if len(recordSpecs) > 0 && recordOf(el) != nil {
+		return el, true
+	}
+	return nil, false
+}
+
 func listElem(ty types.Type) (types.Type, bool) {
+	if el, ok := seqElem(ty); ok {
+		return el, true
+	}
 	sl, ok := ty.Underlying().(*types.Slice)
 	if !ok {
 		return nil, false
@@ -223,6 +243,8 @@ func leanTypeStatic(ty types.Type) string {
 			es = "(" + es + ")"
 		}
 		return "List " + es
+	case kMapList:
+		return "(Bytes → " + leanTypeStatic(ty.Underlying().(*types.Map).Elem()) + ")"
 	case kOpt:
 		el, _ := optElem(ty)
 		return optOf(leanTypeStatic(el))
@@ -244,6 +266,13 @@ func classifyRecord(ty types.Type) (kind, bool) {
 	}
 	if _, ok := listElem(ty); ok {
 		return kRecList, true
+	}
+	if m, ok := ty.Underlying().(*types.Map); ok {
+		if kk, _ := classifyBasicAny(m.Key()); kk == kBytes {
+			if _, ok := listElem(m.Elem()); ok {
+				return kMapList, true
+			}
+		}
 	}
 	if _, ok := optElem(ty); ok {
 		return kOpt, true
@@ -384,6 +413,14 @@ func (t *tr) nilTest(e ast.Expr) (string, bool) {
 	if k, _ := t.kindOf(e); k == kOpt {
 		return "((" + t.expr(e) + ").isSome = false)", true
 	}
+	if k, _ := t.kindOf(e); k == kRecList {
+		if se, ok := e.(*ast.SelectorExpr); ok && t.isFieldPath(se) {
+			bn := pathName(t.pathKey(se)) + "_isNil"
+			if t.f.hasBinder(bn) {
+				return "(" + bn + " = true)", true
+			}
+		}
+	}
 	if k, _ := t.kindOf(e); k == kAbs {
 		an, _ := absTypeOf(t.typeOf(e))
 		if t.f.hasBinder(an + "_isNil") {
@@ -438,7 +475,16 @@ func (t *tr) rangeStmt(x *ast.RangeStmt, rest []ast.Stmt, depth int, k func() st
 	elLean := leanTypeStatic(elTy)
 	var iobj, vobj types.Object
 	iname, vname := "i__", "x__"
-	if id, ok := x.Key.(*ast.Ident); ok && id.Name != "_" {
+	_, isSeq := seqElem(t.typeOf(x.X))
+	if isSeq {
+		// for v := range seq: the single variable is the value
+		if x.Value != nil {
+			return t.fail(x, "range over an iterator with two variables")
+		}
+		if id, ok := x.Key.(*ast.Ident); ok && id.Name != "_" {
+			vobj = t.u.info.Defs[id]
+		}
+	} else if id, ok := x.Key.(*ast.Ident); ok && id.Name != "_" {
 		iobj = t.u.info.Defs[id]
 		iname = leanName(id.Name)
 	}
